@@ -170,12 +170,13 @@ func nestedDoc(n, k int) (Map, []Map) {
 func H_C07_subquery() {
 	n := verif.Choose("rows", maxRows(2, 2)+1)
 	k := verif.Choose("nested", 3)
-	form := verif.Choose("form", 11)
+	form := verif.Choose("form", 13)
 	doc, rows := nestedDoc(n, k)
 	c := verif.F64("c")
 	// a second root table for the root- and CTE-sourced correlated subqueries
 	var ws []float64
 	if form >= 8 {
+		// (forms 11, 12 reuse the table)
 		var u []any
 		for i := 0; i < 2; i++ {
 			w := verif.F64("w")
@@ -193,6 +194,10 @@ func H_C07_subquery() {
 		sql = "SELECT a FROM t WHERE a IN (SELECT w FROM `<-u` WHERE w >= `<-a`)"
 	case 10:
 		sql = "WITH c AS (SELECT w FROM u) SELECT a, (SELECT w FROM `<-c` WHERE w > `<-a`) AS sub FROM t"
+	case 11:
+		sql = "SELECT a FROM t WHERE a NOT IN (SELECT p FROM items)"
+	case 12:
+		sql = "SELECT a FROM t WHERE a NOT IN (SELECT w FROM `<-u`)"
 	case 0:
 		sql = verif.SQL("SELECT a, (SELECT p FROM items WHERE q > ?) AS sub FROM t", c)
 	case 1:
@@ -274,6 +279,26 @@ func H_C07_subquery() {
 				}
 			}
 			if in {
+				want = append(want, Map{"a": a})
+			}
+		case 11:
+			in := false
+			for _, it := range items {
+				if f64of(it.(Map)["p"]) == a {
+					in = true
+				}
+			}
+			if !in {
+				want = append(want, Map{"a": a})
+			}
+		case 12:
+			in := false
+			for _, w := range ws {
+				if w == a {
+					in = true
+				}
+			}
+			if !in {
 				want = append(want, Map{"a": a})
 			}
 		}
